@@ -77,6 +77,8 @@ type FuncFacts struct {
 	loops map[*ssa.BasicBlock]map[*ssa.BasicBlock]bool // header -> body set
 	rets  []*retInfo
 	retOf map[*ssa.BasicBlock]*retInfo
+
+	events []*Event
 }
 
 type retInfo struct {
